@@ -1841,7 +1841,7 @@ def run(chk):
         "x up to 3 intermediate-format plans per chain (JSON|JSONL; DKVP; CSV|TSV), text formats only "
         "when the stage's records are inside that format's lossless domain; quick tier enumerates a 30 x 16 core of (duplicating / retaining / "
         "regrouping / file-writing upstream) x (order-, position- and identity-sensitive downstream) pairs and the " + f"{len(KEY_UP)} x {len(KEY_DOWN)}" + " key-lifecycle pairs; the thorough tier "
-        "has those two blocks with all three plans (key-lifecycle on narrow and wide records, plus 400 up-up-down triples), 700 chains of length 3-4 "
+        "has the core block with all three plans, the key-lifecycle block on narrow (JSON + DKVP plans) and wide (JSON + CSV/TSV plans) records plus 400 up-up-down triples, 500 chains of length 3-4 "
         "with all three plans, and every ordered pair of families once with one plan (plans rotate over the pair matrix). "
         "Non-trivial = every stage's output differs from its input (A changes the input and B changes A's output). "
         "b: lists of 1-5 files per format (17 input formats: every reader Miller has) with empty / header-only / `[]` files, headers differing per file, "
@@ -1897,21 +1897,24 @@ def run(chk):
             for ua in KEY_UP:
                 for da in KEY_DOWN:
                     for wide in (True, False):
-                        cases.append({"seed": f"{chk.seed}/ak/{kidx}", "tier": chk.tier, "explicit": [ua, da], "core": True, "wide": wide})
+                        # every pair on wide and on narrow records; the JSON plan always, the two text plans split between the widths
+                        # (the text plans only vary the piped reference, the key bookkeeping under test lives in the chain process)
+                        cases.append({"seed": f"{chk.seed}/ak/{kidx}", "tier": chk.tier, "explicit": [ua, da], "core": True, "wide": wide,
+                                      "plans": ["json", "xsv" if wide else "dkvp"]})
                         kidx += 1
             for i in range(400):   # key-lifecycle chains of length 3: up, up, down
                 r3 = random.Random(f"{chk.seed}/ak3/{i}")
                 cases.append({"seed": f"{chk.seed}/ak3/{i}", "tier": chk.tier, "explicit": [r3.choice(KEY_UP), r3.choice(KEY_UP), r3.choice(KEY_DOWN)],
                               "core": True, "wide": i % 4 != 0})
             chk.extra["a_key_lifecycle_pairs_enumerated"] = kidx
-            for i in range(700):
+            for i in range(500):
                 cases.append({"seed": f"{chk.seed}/a34/{i}", "tier": chk.tier, "len": 3 + (i % 2)})
             chk.extra["a_ordered_family_pairs_enumerated"] = len(fam_names) ** 2
         for c in cases[:2] + cases[-2:]:
             c["sample"] = True
         chk.pmap(pipe_case, cases, chunksize=4, label="a chain-vs-pipe")
     if not only or "b" in only:
-        n = 9 if q else 36
+        n = 9 if q else 28
         cases = [{"seed": f"{chk.seed}/b/{fmt}/{i}", "fmt": fmt, "tier": chk.tier} for fmt in B_FORMATS for i in range(n)]
         # reader-option sweep (added after seeded change C05-b, widened after the audit): per-file reader state (the header,
         # implicit or read; the BOM; comment lines before the header; the bars of barred PPRINT) must not leak from one file
@@ -1930,7 +1933,7 @@ def run(chk):
         chk.pmap(ctx_case, cases, chunksize=2, label="b context model")
     if not only or "c" in only:
         fmts = ["dkvp", "csv", "json"] if q else ["dkvp", "csv", "json", "tsv", "nidx", "xtab", "jsonl"]
-        n = 8 if q else 18
+        n = 8 if q else 14
         cases = [{"seed": f"{chk.seed}/c/{fmt}/{i}", "fmt": fmt, "tier": chk.tier} for fmt in fmts for i in range(n)]
         for c in cases[:1] + cases[-1:]:
             c["sample"] = True
